@@ -68,6 +68,13 @@ Definition add_pair (b : book) (idx betid : Z) : book :=
 Definition set_status (b : book) (st : Z) : book :=
   book_upd b st (bk_partcnt b) (bk_queues b) (bk_parts b) (bk_expo b) (bk_expo_ix b) (bk_hist b) (bk_pairs b).
 
+(* exposure_odds.go removeFromFulfillmentQueue: every occurrence of idx leaves the queue of odds o *)
+Definition drop_from_queue (b : book) (o idx : Z) : book :=
+  match get_queue b o with
+  | None => b
+  | Some q => set_queue b o (filter (fun x => negb (x =? idx)) q)
+  end.
+
 (* GetExposureByOrderBookAndOdds *)
 Definition expos_of_odds (b : book) (o : Z) : list expo := filter (fun e => e_odds e =? o) (bk_expo b).
 (* GetExposureByOrderBookAndParticipationIndex (reads prefix 0x04) *)
@@ -218,7 +225,9 @@ Definition wager_iter (A : wargs) (idx : Z) (s : wstate) : option wstate :=
             else match check_other (wa_uids A) (wa_sel A) (wa_allodds A) (fi_all it) p2 (wa_thr A) (p_enf p2) [] with
                  | None => None
                  | Some (enf, upds) =>
-                     Some (part_set_enf p2 enf, pe2, uq, fold_left set_expo upds bk0)
+                     (* SetParticipationExposure + removeFromFulfillmentQueue for every secondary fulfilment *)
+                     Some (part_set_enf p2 enf, pe2, uq,
+                           fold_left (fun b e => drop_from_queue (set_expo b e) (e_odds e) idx) upds bk0)
                  end
           else Some (p2, pe2, uq, bk0)
         else Some (p1, pe1, ws_uq s, bk0) in
